@@ -19,6 +19,19 @@ Proof.
   - intros H. apply andb_true_iff in H as [H1 H]. rewrite H1. auto.
 Qed.
 
+Lemma put_leaf_v_locks k l v : forall f,
+  (lock_closed_f f = true -> lock_closed_f (put_leaf_v f k l v) = true) /\
+  (all_locked_f f = true -> all_locked_f (put_leaf_v f k l v) = true).
+Proof.
+  induction f as [|k' l' v' r [IH1 IH2]|k' p bs r [IH1 IH2]|k' t r [IH1 IH2]]; cbn [put_leaf_v lock_closed_f all_locked_f];
+    try (destruct (String.eqb k k'); cbn [lock_closed_f all_locked_f]; split; auto).
+  - split; auto.
+  - intros H. apply andb_true_iff in H as [_ H]. exact H.
+  - intros H. apply andb_true_iff in H as [_ H]. exact H.
+  - intros H. apply andb_true_iff in H as [H1 H]. rewrite H1. auto.
+  - intros H. apply andb_true_iff in H as [H1 H]. rewrite H1. auto.
+Qed.
+
 Lemma del_key_locks k : forall f,
   (lock_closed_f f = true -> lock_closed_f (del_key f k) = true) /\
   (all_locked_f f = true -> all_locked_f (del_key f k) = true).
@@ -176,7 +189,7 @@ Lemma step_tree_closed t o t' w : op_closed o = true -> lock_closed_t t = true -
 Proof.
   intros Ho Hc Hs.
   assert (Hroot : false = true -> all_locked_t t = true) by discriminate.
-  destruct o as [path k l|path k b|path k|path k k'|path k s|path|path|names|tofile]; cbn [step_tree] in Hs.
+  destruct o as [path k l|path k b|path k|path k k'|path k s|path|path|names|path k1 k2|path k1 k2|tofile]; cbn [step_tree] in Hs.
   - refine (proj1 (at_path_closed _ _ path false t t' w Hc Hroot Hs)).
     intros a [m f] n' x Hn Ha Hg. unfold no_w in Hg. structural m. injection Hg as <- <-.
     cbn [lock_closed_t all_locked_t] in *. rewrite El in *. apply andb_true_iff in Hn as [_ Hn].
@@ -213,6 +226,19 @@ Proof.
     split; [apply (proj1 setlock_false)|discriminate].
   - destruct t as [m f]. unfold no_w in Hs. destruct (_ =? _); [|discriminate]. cbn [option_map] in Hs. injection Hs as E1 _. rewrite <- E1.
     transitivity (lock_closed_t (Node m f)); [apply (proj1 (proj1 set_names_locks (Node m f) names))|exact Hc].
+  - refine (proj1 (at_path_closed _ _ path false t t' w Hc Hroot Hs)).
+    intros a [m f] n' x Hn Ha Hg. unfold no_w in Hg. structural m.
+    destruct (find_lv f k1) as [[l1 v1]|]; [|discriminate]. destruct (find_lv f k2) as [[l2 v2]|]; [|discriminate].
+    injection Hg as <- <-.
+    cbn [lock_closed_t all_locked_t] in *. rewrite El in *. apply andb_true_iff in Hn as [_ Hn].
+    rewrite (proj1 (put_leaf_v_locks k2 l1 v1 _) (proj1 (put_leaf_v_locks k1 l2 v2 f) Hn)). split; [reflexivity|].
+    intros Hx. specialize (Ha Hx). discriminate.
+  - refine (proj1 (at_path_closed _ _ path false t t' w Hc Hroot Hs)).
+    intros a [m f] n' x Hn Ha Hg. unfold no_w in Hg. structural m.
+    destruct (find_lv f k2) as [[l2 v2]|]; [|discriminate]. injection Hg as <- <-.
+    cbn [lock_closed_t all_locked_t] in *. rewrite El in *. apply andb_true_iff in Hn as [_ Hn].
+    rewrite (proj1 (put_leaf_v_locks k1 l2 v2 f) Hn). split; [reflexivity|].
+    intros Hx. specialize (Ha Hx). discriminate.
   - injection Hs as <- <-. exact Hc.
 Qed.
 
